@@ -13,3 +13,10 @@ Theorem C19_all_calls : forall lens evs s s' outs rest, Inv s -> calls evs s len
   map (@length nat) outs = lens /\ (exists used, evs = used ++ rest /\ concat outs = delivered used) /\ opens_ok s' <= 1.
 Proof. exact calls_correct. Qed.
 Print Assumptions C19_all_calls.
+
+(* progress: k failed opens, one successful open, then ANY interleaving of failed / empty reads with single-byte
+   deliveries containing at least xlen deliveries: the call returns (it is never left blocked) *)
+Theorem C19_progress : forall k reads s xlen, fd_open s = false -> forallb unit_read reads = true -> xlen <= deliveries reads ->
+  randombytes (repeat OpenFail k ++ OpenOk :: reads) s xlen <> None.
+Proof. exact call_progress. Qed.
+Print Assumptions C19_progress.
